@@ -13,7 +13,7 @@ CONSTANTS
   StoreFaults <- AllStoreFaults
   DelFaults = TRUE
   ApiCrash = TRUE
-  FixTee = FALSE
+  FixTee = TRUE
 VIEW view
 ACTION_CONSTRAINT Emit
 CHECK_DEADLOCK FALSE
